@@ -36,6 +36,10 @@ def main():
             patch = ROOT / patch
         if names and not any(n in str(patch) for n in names):
             continue
+        if entry.get("stale"):
+            # written against an earlier state of /repo: the lines it edits were changed by later fix commits
+            print(("skipped (stale)", str(entry["patch"])), flush=True)
+            continue
         scratch = Path(tempfile.mkdtemp(prefix="lwv_st_"))
         try:
             repo = scratch / "repo"
